@@ -95,7 +95,9 @@ func (def *sliceAsList) findByKey(m meta.Meta, target []val.Value, keyMeta []met
 			return notfound, empty, err
 		}
 		for i, v := range candidateKey {
-			if v.Value() != target[i].Value() {
+			// not v.Value() != ...: byte strings and lists do not compare with !=, and the entry
+			// may hold no value for its key
+			if i >= len(target) || !val.Equal(v, target[i]) {
 				break
 			}
 			isLastKey := i == len(keyMeta)-1
